@@ -514,6 +514,14 @@ def pos(db, ctx):
         ctx.ob("%s|shape" % f.short(), table == want,
                "%s: result by (POS already present, mode) = %s (must be: present -> its id; absent+Allow -> register_pos; absent+Forbid -> Err)" % (
                    f.short(), {"%s/%s" % k_: v for k_, v in table.items()}), fn=f)
+    # a configuration that says nothing about user POS must get the forbidding mode: `userPOS` is `#[serde(default)]` in every plugin
+    dfl = [f for f in db.impls_of("Default::default") if "UserPosMode" in f.key]
+    if len(dfl) != 1:
+        raise AnchorMissing("<UserPosMode as Default>::default", "(%d found)" % len(dfl))
+    vals = {(x.get("path") or "").split("::")[-1] for x, _ in walk(dfl[0].hir) if x.get("k") in ("Path", "Struct", "Call") and "UserPosMode::" in (x.get("path") or x.get("callee") or "")}
+    vals |= {(x.get("callee") or "").split("::")[-1] for x, _ in walk(dfl[0].hir) if x.get("k") == "Call" and "UserPosMode::" in (x.get("callee") or "")}
+    vals.discard("")
+    ctx.ob("UserPosMode|default=Forbid", vals == {"Forbid"}, "UserPosMode::default() is %s (must be Forbid: user-defined POS only when explicitly allowed)" % sorted(vals), fn=dfl[0])
     # the lookup itself must reject a POS of the wrong arity: zip/all over a shorter or longer list would match by prefix
     gp = db.one("get_part_of_speech_id", "Grammar")
     from ..db import walk_x
